@@ -17,6 +17,7 @@ package cabf_br
 import (
 	"fmt"
 	"net/url"
+	"sort"
 	"strings"
 
 	"github.com/zmap/zcrypto/x509"
@@ -212,12 +213,19 @@ func (l *torServiceDescHashInvalid) Execute(c *x509.Certificate) *lint.LintResul
 	// descriptorMap.
 	// See also https://github.com/cabforum/documents/issues/190
 	if util.IsEV(c.PolicyIdentifiers) {
-		for eTLDPlusOne, subjDomain := range onionETLDPlusOneMap {
+		// Walk the eTLD+1s in sorted order so that the same certificate always
+		// names the same offending subject (map iteration order is random).
+		eTLDPlusOnes := make([]string, 0, len(onionETLDPlusOneMap))
+		for eTLDPlusOne := range onionETLDPlusOneMap {
+			eTLDPlusOnes = append(eTLDPlusOnes, eTLDPlusOne)
+		}
+		sort.Strings(eTLDPlusOnes)
+		for _, eTLDPlusOne := range eTLDPlusOnes {
 			if _, found := descriptorMap[eTLDPlusOne]; !found {
 				return failResult(
 					"%s subject domain name %q does not have a corresponding "+
 						"TorServiceDescriptorHash for its eTLD+1",
-					util.OnionTLD, subjDomain)
+					util.OnionTLD, onionETLDPlusOneMap[eTLDPlusOne])
 			}
 		}
 	}
